@@ -1,6 +1,6 @@
 """The grammar pipeline shared by the parser-level properties:
    grammars -> (host descriptors | generated TUs) -> real dumps + real traces -> TLC (design / product / traces)."""
-import collections, os, sys, json, subprocess, time, itertools, random
+import collections, os, re, sys, json, subprocess, time, itertools, random
 import vlib, gram, gen_tu, traces as tracelib
 from vlib import Infra
 
@@ -75,15 +75,21 @@ def clex_entry(g, gid=None):
 
 
 def unique_term_names(terms):
-    """ctpg resolves the symbols of a rule by NAME: two terms with one name (two equal patterns, a regex term named like a
-    string term) alias each other in every rule.  Such term lists are outside what a parser-level check can describe."""
+    """ctpg resolves the symbols of a rule by their ID; checks that read names back from diagnostics text (C11) or from
+    messages need the display names to be unique as well."""
     n = gen_tu.lex_names(terms)
     return len(set(n)) == len(n)
 
 
+def unique_term_ids(terms):
+    """the ids ctpg resolves rule symbols by: the character, the string, 'r_' + pattern (a custom NAME does not change the id)"""
+    ids = gen_tu.lex_names([t[:2] for t in terms])
+    return len(set(ids)) == len(ids)
+
+
 def lex_entry(name, terms, shape='list'):
-    if not unique_term_names(terms):
-        raise ValueError('terms with equal names alias each other in ctpg rules: ' + repr(gen_tu.lex_names(terms)))
+    if not unique_term_ids(terms):
+        raise ValueError('terms with equal ids alias each other in ctpg rules: ' + repr(gen_tu.lex_names(terms)))
     gid = '%s@lex' % name
     e = Entry(gid, LexGrammar(name, terms, shape), 'gen', gen_tu.lex_tla_json(gid, terms, shape))
     e.lexterms = terms
@@ -154,10 +160,40 @@ def run_harness(entries, workname, env=None):
             else:
                 by_gid[rec['g']].traces.append(rec)
         if r.returncode != 0:
-            # the traced implementation died (signal / abort): the entries with missing traces carry the signal
-            for e in part:
-                if len(e.traces) < len(e.jobs) or e.dump is None:
-                    e.crashed = r.returncode
+            # the traced implementation died (signal / abort / watchdog) while serving ONE entry: that entry carries the exit
+            # code; the entries behind it in the same process never ran and are served again by a fresh process
+            rest = part
+            rc = r.returncode
+            rounds = 0
+            while rc != 0 and rounds < 50:
+                rounds += 1
+                inc = [i for i, e in enumerate(rest) if len(e.traces) < len(e.jobs) or e.dump is None]
+                if not inc:
+                    break
+                rest[inc[0]].crashed = rc
+                m = re.search(r'VERIF-TIMEOUT job=(\S+)', r.stderr or '')
+                if m:
+                    rest[inc[0]].crash_job = m.group(1)
+                rest = [e for e in rest[inc[0] + 1:] if len(e.traces) < len(e.jobs) or e.dump is None]
+                if not rest or len(cmd) != 4:          # (generated TUs serve a single entry)
+                    break
+                base2 = cmd[1][:-5] + '_r%d' % rounds
+                with open(base2 + '.desc', 'w') as f:
+                    for e in rest:
+                        f.write(e.desc)
+                        e.traces = []
+                _write_jobs(base2 + '.jobs', rest)
+                r = subprocess.run([cmd[0], base2 + '.desc', base2 + '.jobs', base2 + '.out'], capture_output=True, text=True, timeout=1800, env=henv)
+                for rec in vlib.read_ndjson_lenient(base2 + '.out'):
+                    if 'dump' in rec:
+                        by_gid[rec['dump']['g']].dump = rec['dump']
+                    elif 'diag' in rec:
+                        by_gid[rec['g']].diag = rec['diag']
+                    elif 'construct_threw' in rec:
+                        by_gid[rec['g']].construct_threw = rec['construct_threw']
+                    else:
+                        by_gid[rec['g']].traces.append(rec)
+                rc = r.returncode
     return work
 
 
